@@ -34,3 +34,16 @@ Example C05_example :
   let v := VStruct [VInt 3; VList [VInt 1; VInt 2; VInt 3]; VInt 7] in
   legal t = true /\ wt t v = true /\ cpp_size t v = 20 /\ len (wire LE t v) = 20.
 Proof. vm_compute. repeat split; reflexivity. Qed.
+
+(* the encoder (model, props/C03.v) leaves exactly get_byte_size() bytes *)
+From Prophy Require Import SpecAlign CppEncFacts.
+Theorem C05_encode_writes_get_byte_size :
+  forall e fs v, legal (TStruct fs) = true -> wt (TStruct fs) v = true ->
+    len (cpp_encode e (TStruct fs) v) = cpp_size (TStruct fs) v.
+Proof.
+  intros e fs v Hl Hw. unfold cpp_encode.
+  destruct (cpp_lay_eq (TStruct fs) v 0 Hl Hw) as [H _]; [apply Z.mod_0_l; pose proof (align_ok (TStruct fs)) as Ha; apply okal_pos in Ha; lia|].
+  rewrite H, (cpp_size_eq (TStruct fs) v Hl Hw).
+  destruct (layout_lengths (TStruct fs) v Hl Hw) as [H1 _]. apply len_render. exact H1.
+Qed.
+Print Assumptions C05_encode_writes_get_byte_size.
